@@ -258,6 +258,111 @@ func (t *TermTable) Mux(c, a, b *Node) *Node {
 	return t.mk(&Node{op: opMux, a: a, b: b, c: c})
 }
 
+// orLeaves: c is a disjunction of source bits (a tree of opOr over opSrc leaves, at most 128);
+// then c = 0 exactly when every leaf is 0.
+func orLeaves(c *Node) map[*Node]bool {
+	out := map[*Node]bool{}
+	var walk func(n *Node) bool
+	walk = func(n *Node) bool {
+		switch n.op {
+		case opSrc:
+			out[n] = true
+			return len(out) <= 128
+		case opOr:
+			return walk(n.a) && walk(n.b)
+		}
+		return false
+	}
+	if c.op != opOr && c.op != opSrc {
+		return nil
+	}
+	if !walk(c) {
+		return nil
+	}
+	return out
+}
+
+// subst0 rebuilds n with the source bits in zeros replaced by 0 (folding through the constructors).
+func (t *TermTable) subst0(n *Node, zeros map[*Node]bool, memo map[*Node]*Node) *Node {
+	if r, ok := memo[n]; ok {
+		return r
+	}
+	var r *Node
+	switch n.op {
+	case opSrc:
+		if zeros[n] {
+			r = t.zero
+		} else {
+			r = n
+		}
+	case opZero, opOne, opTop:
+		r = n
+	case opNot:
+		r = t.Not(t.subst0(n.a, zeros, memo))
+	case opAnd:
+		r = t.And(t.subst0(n.a, zeros, memo), t.subst0(n.b, zeros, memo))
+	case opOr:
+		r = t.Or(t.subst0(n.a, zeros, memo), t.subst0(n.b, zeros, memo))
+	case opXor:
+		r = t.Xor(t.subst0(n.a, zeros, memo), t.subst0(n.b, zeros, memo))
+	case opMux:
+		r = t.Mux(t.subst0(n.c, zeros, memo), t.subst0(n.a, zeros, memo), t.subst0(n.b, zeros, memo))
+	default:
+		r = n // uninterpreted applications: left as they are (sound: only used to find equal arms)
+		if n.op == opApp {
+			for _, k := range n.kids {
+				if t.subst0(k, zeros, memo) != k {
+					r = t.Top()
+					break
+				}
+			}
+		}
+	}
+	memo[n] = r
+	return r
+}
+
+// MuxCofactor: c ? a : b, where the mux is dropped when the two arms agree wherever c is false
+// (a with c's leaves forced to 0 is b) or wherever c is true.  This is what makes a loop with an
+// early exit on "no bits left" (`for ; p != 0; p >>= 1`) evaluate to the same term as the loop
+// that runs over all bit positions.
+func (t *TermTable) MuxCofactor(c, a, b *Node, cof *cofactorCache) *Node {
+	if a == b || c.op == opOne || c.op == opZero {
+		return t.Mux(c, a, b)
+	}
+	if zs, memo := cof.of(c); zs != nil {
+		if t.subst0(a, zs, memo) == b {
+			return a
+		}
+	} else if c.op == opNot {
+		if zs, memo := cof.of(c.a); zs != nil {
+			if t.subst0(b, zs, memo) == a {
+				return b
+			}
+		}
+	}
+	return t.Mux(c, a, b)
+}
+
+type cofactorCache struct {
+	zeros map[*Node]map[*Node]bool
+	memo  map[*Node]map[*Node]*Node
+}
+
+func (cc *cofactorCache) of(c *Node) (map[*Node]bool, map[*Node]*Node) {
+	if cc.zeros == nil {
+		cc.zeros = map[*Node]map[*Node]bool{}
+		cc.memo = map[*Node]map[*Node]*Node{}
+	}
+	zs, seen := cc.zeros[c]
+	if !seen {
+		zs = orLeaves(c)
+		cc.zeros[c] = zs
+		cc.memo[c] = map[*Node]*Node{}
+	}
+	return zs, cc.memo[c]
+}
+
 // Short prints the term down to the given depth (the DAG printed as a tree can be exponential).
 func (n *Node) Short(depth int) string {
 	if depth <= 0 && n.op != opZero && n.op != opOne && n.op != opSrc {
@@ -455,6 +560,7 @@ type Interp struct {
 	// panic on that path) leaves the modelled fragment instead of reading a fresh cell.
 	CheckBounds bool
 	pendingBind []Value // captured values for the closure about to be entered
+	cof         cofactorCache
 }
 
 func NewInterp(w *World) *Interp {
@@ -895,7 +1001,7 @@ func (it *Interp) run(fn *ssa.Function, b, prev, until *ssa.BasicBlock, st *stat
 					}
 					j := it.ipdom(fn)[b]
 					it.nest++
-					if it.nest > 40 {
+					if it.nest > 72 {
 						it.nest--
 						it.unsup("if-conversion nesting too deep in %s (data-dependent loop?)", fn.String())
 						return frameResult{st: st, returned: true, ret: OpaqueV{"nest"}}
@@ -1001,7 +1107,7 @@ func (it *Interp) mux(c *Node, a, b Value) Value {
 		}
 		r := BV{W: x.W, B: make([]*Node, x.W), Signed: x.Signed}
 		for i := range r.B {
-			r.B[i] = it.T.Mux(c, x.B[i], y.B[i])
+			r.B[i] = it.T.MuxCofactor(c, x.B[i], y.B[i], &it.cof)
 		}
 		return r
 	case AggV:
